@@ -341,7 +341,10 @@ def gen_proof_side(pid, thorough=False):
                 res["failures"].append("theorem %s: proof is not a single `exact`" % m.group(1))
         out_prop = ""
         for f in order:
-            rc, out = sh(["coqc", "-R", COQ, "SV", "-Q", scratch, "SVG", os.path.join(scratch, f)], cwd=scratch, timeout=900)
+            try:
+                rc, out = sh(["coqc", "-R", COQ, "SV", "-Q", scratch, "SVG", os.path.join(scratch, f)], cwd=scratch, timeout=600)
+            except subprocess.TimeoutExpired:
+                rc, out = 124, "coqc did not finish within 600 s"
             if rc != 0:
                 if f in [m + ".v" for m in cfg["modules"]]:
                     # the generated module itself is not accepted by Coq: a limitation of the translator's
